@@ -96,3 +96,38 @@ def run(P: Program, rep: Report):
         rep.fail("C03.R5", "end_implicit_comment:" + k, fe.loc, i["message"])
     if not iss:
         rep.ok("C03.R5", "end_implicit_comment:class-strings", fe.loc, f"{n} class strings agree")
+
+    rep.rule("C03.R6", "blocks that stand in for others keep their own source: a duplicate-key block reports the raw text and start line "
+                       "of the duplicate (not of the first block); parse_string hands the text unchanged to the splitter (no stripped "
+                       "prefix that would shift lines)")
+    from .. import libmodel
+    records, _stats = libmodel.explore_library(P, rep.tier)
+    badw = None
+    nw = 0
+    for hist, op, o in records:
+        for w in o.get("wrappers", []) if o.get("kind") == "ok" else []:
+            nw += 1
+            if (w["raw"] != w["inner_raw"] or w["start_line"] != w["inner_line"]) and badw is None:
+                badw = f"duplicate-key block for {w['item'][1]}: raw {w['raw']!r} / line {w['start_line']!r}, the duplicate's are {w['inner_raw']!r} / {w['inner_line']!r}"
+    rep.require_count("C03.R6", "duplicate wrappers inspected", nw, 60)
+    rep.check(badw is None, "C03.R6", "duplicate-wrapper:raw-and-line", P.cls("model", "DuplicateBlockKeyBlock").loc, badw or "")
+    from ..absint import AList, Raised, Unsupported, explore
+    from .common import call_func, driver_interp
+    from .c20 import Token, make_intrinsics, Hooks
+
+    def handover(ctx):
+        log = []
+        it = driver_interp(P, ctx, "entrypoint", make_intrinsics(P, log), Hooks(log))
+        try:
+            call_func(it, P.func("entrypoint", "parse_string"), Token("input-text", "str"))
+        except (Raised, Unsupported) as e_:
+            return repr(e_)
+        return [getattr(e_[1], "name", repr(e_[1])) for e_ in log if e_[0] == "splitter"]
+    for ctx, v in explore(handover, 20):
+        rep.check(v == ["input-text"], "C03.R6", "parse_string:text-unchanged", P.func("entrypoint", "parse_string").loc,
+                  f"parse_string hands {v!r} to the splitter instead of the text it was given (removed leading lines shift every start_line)")
+
+    rep.rule("C03.R9", "no unsafe memoisation in the modules this property rests on: a function decorated with lru_cache / cache / "
+                      "cached_property neither takes nor returns a mutable object (else later calls see stale or shared results)")
+    from . import common as _common
+    _common.no_unsafe_memoisation(P, rep, "C03.R9", ['splitter', 'model', 'library'])
